@@ -114,7 +114,15 @@ class C34(hc.PProp):
         plan = hc.std_plan(rng, {'cache': 'none', 'no_default_access': True, 'logformat': 'sim', 'lines': [LOGFORMAT,
             'auth_param basic program /bin/true sim=auth', 'auth_param basic children 2', 'auth_param basic realm sim', 'auth_param basic casesensitive on', 'acl authed proxy_auth REQUIRED', 'http_access allow authed',
             'http_access deny all', 'buffered_logs off']}, hostile=False)
-        plan['txns'] = [{'id': index * 100 + k, 'evil': rng.choice(EVIL), 'user': rng.choice(EVIL_USER), 'abort': rng.random() < 0.15, 'path': rng.choice(['p', 'p%0d%0aS=7', 'q?a="b"', "r'[x]"])}
+        def grow(v, target):
+            # the same hostile value stretched across squid's fixed-size quoting buffers (512 and 1024/4096 byte boundaries), keeping its separators inside
+            if not target or len(v) >= target:
+                return v
+            fill = (v + ' pad\t') * (target // (len(v) + 5) + 1)
+            return (v + ' ' + fill)[:target].rstrip(' \t') or v
+        plan['txns'] = [{'id': index * 100 + k, 'evil': grow(rng.choice(EVIL), rng.choice([0, 0, 0, 500, 510, 511, 512, 513, 520, 1023, 1025, 3000])),
+                         'user': grow(rng.choice(EVIL_USER), rng.choice([0, 0, 0, 0, 0, 511, 512, 600])), 'abort': rng.random() < 0.15,
+                         'path': rng.choice(['p', 'p%0d%0aS=7', 'q?a="b"', "r'[x]"])}
                         for k in range(rng.randint(6, 20))]
         plan['_lists'] = ['txns']
         return plan
